@@ -52,19 +52,36 @@ macro_rules! same_as_slice {
 }
 
 /// @harness props=C10:Q,C20:T n=3 err=Cheap timeout=900
-/// @shape g = (t0 t1 end)#1 | (t0 t2 t1? t2{0,1})#2 with spans;  &[u8]  vs  Stream::from_iter (counting iterator underneath)
+/// @shape g = (t0 t1 end)#1 | (t0 t2 t1? t2{0,1})#2 with spans;  &[u8]  vs  Stream::from_iter
 /// @symbolic t0..t2: u8; input 3 bytes
-/// @aims Stream caches pulled tokens: backtracking re-reads the cache, every item is pulled from the iterator at most once and in order
+/// @aims Stream caches pulled tokens: backtracking re-reads the cache (same tokens, same spans)
 pub fn c10_stream_body<S: Src>(s: &mut S) {
     let t = [s.u8(), s.u8(), s.u8()];
+    let inp = Inp::<3>::any(s);
+    let x = inp.get();
+    let stream = Stream::from_iter(x.iter().copied());
+    same_as_slice!(t, x, g::<Stream<_>>(t).parse(stream));
+}
+
+/// @harness props=C10:Q,C20:T n=3 err=Cheap timeout=900
+/// @shape (t0 t1) | (t0 any) | any any any   on a Stream over a pull-counting iterator
+/// @symbolic t0, t1: u8; input 3 bytes
+/// @aims a Stream pulls every item from its iterator at most once and in order, however much the parser backtracks
+pub fn c10_stream_pulls_body<S: Src>(s: &mut S) {
+    let t = [s.u8(), s.u8()];
     let inp = Inp::<3>::any(s);
     let x = inp.get();
     let pulls = Cell::new(0usize);
     let pulls_ref = &pulls;
     let it = x.iter().copied().inspect(move |_| pulls_ref.set(pulls_ref.get() + 1));
     let stream = Stream::from_iter(it);
-    same_as_slice!(t, x, g::<Stream<_>>(t).parse(stream));
+    let j = |c: u8| just::<u8, Stream<_>, X>(c);
+    let p = j(t[0]).then(j(t[1])).ignored().or(j(t[0]).then(any()).ignored()).or(any().then(any()).then(any()).ignored());
+    let r = p.parse(stream);
+    contract(&r);
     check!("C10:stream-pulls-each-item-at-most-once", pulls.get() <= x.len());
+    cover!("cover:accept", r.has_output());
+    cover!("cover:backtracked", r.has_output() && x.len() == 3);
 }
 
 /// @harness props=C10:Q,C20:T n=3 err=Cheap timeout=900
@@ -161,9 +178,10 @@ pub fn c10_str_vs_bytes_body<S: Src>(s: &mut S) {
 }
 
 crate::harnesses! {
-    c10_stream [7] = c10_stream_body;
-    c10_iter_input [7] = c10_iter_input_body;
-    c10_mapped [7] = c10_mapped_body;
-    c10_array_boxed [7] = c10_array_boxed_body;
-    c10_str_vs_bytes [7] = c10_str_vs_bytes_body;
+    c10_stream [6] = c10_stream_body;
+    c10_stream_pulls [6] = c10_stream_pulls_body;
+    c10_iter_input [6] = c10_iter_input_body;
+    c10_mapped [6] = c10_mapped_body;
+    c10_array_boxed [6] = c10_array_boxed_body;
+    c10_str_vs_bytes [6] = c10_str_vs_bytes_body;
 }
